@@ -169,6 +169,30 @@ def links_ok(a):
     return True
 
 
+def same_as_source(a):
+    """The subtree `a` of another FST tree still is what the source of that tree says (types, lists, primitives): CPython
+    parse of the other tree's source, same path, same `ast.dump`.  Stands for the reparse of the copy that the repaired
+    `reconcile` does (`copy().verify()`), which notices primitives changed in the other tree (C13-F2)."""
+    f = getattr(a, 'f', None)
+    if f is None:
+        return False
+    root = f.root
+    if not isinstance(root.a, ast.Module):
+        return True
+    try:
+        n = ast.parse(root.src)
+        for af in root.child_path(f):
+            v = getattr(n, af.name)
+            n = v if af.idx is None else v[af.idx]
+        return ast.dump(n) == ast.dump(a)
+    except Exception:
+        return False
+
+
+def foreign_ok(a):
+    return links_ok(a) and same_as_source(a)
+
+
 class Ser:
     """One serialisation state per round (shared value / tree-id interning between the marked and the edited tree)."""
 
@@ -207,7 +231,7 @@ class Ser:
         sig = None
         if p is not None:
             sig = self.sigs.sig(type(p.a), '' if type(p.a) is ast.Dict else f.pfield.name)
-        return ['f', links_ok(x), tid, self.loc(f), sig]
+        return ['f', foreign_ok(x), tid, self.loc(f), sig]
 
     def pair_origin(self, k, v):
         """the conditions of `recurse_slice_dict` under which (key, value) is an element of a Dict of some FST tree"""
@@ -228,7 +252,7 @@ class Ser:
             return ['t', loc]
         self.foreign_seen = True
         tid = self.tids.setdefault(id(vf.root), len(self.tids) + 1)
-        ok = (k is None or links_ok(k)) and links_ok(v)
+        ok = (k is None or foreign_ok(k)) and foreign_ok(v)
         return ['f', ok, tid, loc, self.sigs.sig(ast.Dict, '')]
 
     def ser(self, x):
